@@ -1,7 +1,7 @@
 (* C11 -- uses_storage_type never under-reports a storage the stream touches
    Property theorems only: each proof is one application of a lemma proved in Proofs/, followed by Print Assumptions. *)
 From Coq Require Import ZArith List Bool.
-From CS Require SchedProofs UsesProofs.
+From CS Require SchedProofs UsesProofs ExecBudget RevConv RevBridge4.
 From CS Require Import Actions NAdvance Multistage Exec Sched RunFacts Projections BasicInv MultistageRun AllocTotal TLBridge MixBridge.
 Import ListNotations.
 Open Scope Z_scope.
@@ -15,7 +15,7 @@ Proof. exact (@SchedProofs.uses_never_raises). Qed.
 Print Assumptions C11_uses_never_raises.
 End M_C11_uses_never_raises.
 
-(* if an emitted action writes a checkpoint to RAM / DISK or copies / moves one from or to it, uses_storage_type of that storage is True: every state of the extracted objects of None, SingleMemory, SingleDisk, TwoLevel, Multistage, Mixed (well_built = counts stored in the object are those of its labels / storage is a checkpoint storage); the Revolve family is excluded from well_built (oracle + correspondence only) *)
+(* if an emitted action writes a checkpoint to RAM / DISK or copies / moves one from or to it, uses_storage_type of that storage is True: every state of the extracted objects of None, SingleMemory, SingleDisk, TwoLevel, Multistage, Mixed (well_built = counts stored in the object are those of its labels / storage is a checkpoint storage); the Revolve family is excluded from well_built (see the next two theorems) *)
 Module M_C11_touch_implies_uses.
 Import UsesProofs.
 Theorem C11_touch_implies_uses :
@@ -26,4 +26,32 @@ Theorem C11_touch_implies_uses :
 Proof. exact (@UsesProofs.touch_implies_uses). Qed.
 Print Assumptions C11_touch_implies_uses.
 End M_C11_touch_implies_uses.
+
+(* class Revolve, on its (error-free) runs: every yielded action that writes to / copies or moves from or to RAM or DISK finds uses_storage_type of that storage True in the observation taken right after it -- RAM needs snapshots_in_ram > 0 (the budget of the run), DISK is never touched *)
+Module M_C11_revolve_touch_uses.
+Import ExecBudget.
+Theorem C11_revolve_touch_uses :
+  forall (N ram disk uf ub0 wd rd : Z) (k : nat),
+         1 <= N ->
+         0 <= ram ->
+         (2 <= N -> 1 <= ram) ->
+         exists (o0 : Sched.obs) (m : Sched.mon) (ls : list Sched.line),
+           Sched.run_case (Sched.PRev RevConv.KRevolve N ram disk uf ub0 wd rd) (RevBridge4.rev_xparams N ram)
+             (repeat Sched.Next k) = Actions.Ok (o0, m, ls) /\ Forall touch_uses_line ls.
+Proof. exact (@ExecBudget.revolve_touch_uses). Qed.
+Print Assumptions C11_revolve_touch_uses.
+End M_C11_revolve_touch_uses.
+
+(* PARTIAL (DiskRevolve, PeriodicDiskRevolve, HRevolve): class-independent fact about the reference executor -- on any error-free monitored run the store sizes stay within the declared budgets and an action touching RAM / DISK is accepted only if that budget is positive; for the three classes named, error-freeness is not proved (D8), so touched => uses rests on correspondence + oracle *)
+Module M_C11_touch_needs_budget_partial.
+Import ExecBudget.
+Theorem C11_touch_needs_budget_partial :
+  forall (p : Exec.xparams) (ops : list Sched.op) (s : Sched.sched) (m : Sched.mon) 
+           (s' : Sched.sched) (m' : Sched.mon) (ls : list Sched.line),
+         Sched.run_ops p s m ops = (s', m', ls) ->
+         RunFacts.mon_ok m' ->
+         BudInv p (Sched.mx m) -> RunFacts.mon_ok m /\ BudInv p (Sched.mx m') /\ Forall (touch_line p) ls.
+Proof. exact (@ExecBudget.run_touch). Qed.
+Print Assumptions C11_touch_needs_budget_partial.
+End M_C11_touch_needs_budget_partial.
 
